@@ -10,7 +10,8 @@ length and next to every other call site:
   n <= 3   every kind vector (3^n per graph: all homogeneous and all mixed cycles)
   n = 4,5  the three homogeneous vectors + "one compact id" among plain ids / among bags, the compact id first or last
            (all labelled graphs are enumerated, so its position in the graph is arbitrary; thorough: every position)
-One table per (graph, kind vector, configs); every id is queried with get_resolved_res_configs(id) under mc/budget.py.
+Before each table a decoy (same ids / names / kinds, no references, other texts) is parsed and resolved in the same
+process.  One table per (graph, kind vector, configs); every id is queried with get_resolved_res_configs(id) under mc/budget.py.
 (quick: two configurations for n <= 4 only; thorough: everywhere.)  Plain and compact ids live in type `string`, bags in
 type `array` (the slot of an id in the other type is a hole).
 
@@ -95,14 +96,14 @@ def rid_of(kinds, i):
     return (0x7F << 24) | ((2 if kinds[i] == "bag" else 1) << 16) | i
 
 
-def build(n, f, kinds, ncfg):
+def build(n, f, kinds, ncfg, tag="val"):
     from gen import arscgen as G
     cfgs = [G.Cfg(), G.Cfg(lang="en")][:ncfg]
     strings, arrays = [None] * n, [None] * n
     for i in range(n):
         vals = {}
         for ci, c in enumerate(cfgs):
-            text = G.S("val%d%s" % (i, "-en" if ci else ""))
+            text = G.S("%s%d%s" % (tag, i, "-en" if ci else ""))
             ref = None if f[i] < 0 else G.R(rid_of(kinds, f[i]))
             if kinds[i] == "plain":
                 vals[c] = G.Plain(ref or text)
@@ -187,6 +188,15 @@ def check_table(acc, n, f, kinds, ncfg, nodes=None):
     data = G.serialise(table)
     ref = RR.RefResolver(table)
     msgs = []
+    # DECOY HISTORY: the same ids, names and entry kinds with another reference graph (every id concrete, other texts) are
+    # parsed and resolved in this process first, results ignored: state kept between parsers / resolve() calls (a visited set
+    # or result cache at class or module level) then falsifies the table judged next -- in the fresh-process replay as well
+    try:
+        d = axml.ARSCParser(G.serialise(build(n, (-1,) * n, kinds, ncfg, tag="decoy")))
+        for i in range(n):
+            d.get_resolved_res_configs(rid_of(kinds, i))
+    except Exception:       # noqa
+        pass
     try:
         a = axml.ARSCParser(data)
         a._analyse()
